@@ -357,7 +357,11 @@ def mutate_value(
 
     # If `transform` is provided, transform `value`
     if transform:
-        value = transform(value)
+        transformed = transform(value)
+        if transformed is not value:
+            # Whatever the transform handed back is not ours to edit in place.
+            mutate_safe = False
+        value = transformed
 
     # If `attr_transforms` is provided, transform attributes
     if attr_transforms:
